@@ -60,10 +60,11 @@ Definition imul (x y : ival) : ival :=
   | Small a, Small b => mul_small_small a b
   | _, _ => norm (den x * den y)
   end.
+(* SmallInt.NegateVal / BigInt.Negate followed by Normalize (after the fix: -(2**63) is small) *)
 Definition ineg (x : ival) : ival :=
   match x with
   | Small a => if a =? min64 then Big (- a) else Small (wrap64 (- a))
-  | Big a => Big (- a)    (* BigInt.Negate: not normalised; never small for canonical input *)
+  | Big a => norm (- a)
   end.
 
 (* after the fix: truncated division (Quo) everywhere *)
@@ -97,4 +98,130 @@ Definition impl (o : binop) (x y : ival) : outcome ival :=
   match o with
   | OpAdd => Ok (iadd x y) | OpSub => Ok (isub x y) | OpMul => Ok (imul x y)
   | OpDiv => idiv x y | OpMod => imod x y
+  end.
+
+(* ================= extension: ** , comparisons, shifts, bitwise ================= *)
+
+(* big.Int.Exp(x, y, nil): x**y, and 1 when y <= 0 *)
+Definition big_exp (x y : Z) : Z := if y <=? 0 then 1 else x ^ y.
+(* SmallInt.ExponentiateSmallInt / ExponentiateBigInt, BigInt.ExponentiateSmallInt /
+   ExponentiateBigInt: all four are Exp followed by IsInt64 normalisation *)
+Definition ipow (x y : ival) : ival :=
+  match x, y with
+  | Small a, Small b => norm (big_exp a b)
+  | Small a, Big b => norm (big_exp a b)
+  | Big a, Small b => norm (big_exp a b)
+  | Big a, Big b => norm (big_exp a b)
+  end.
+
+(* big.Int.Cmp *)
+Definition big_cmp (a b : Z) : Z := match a ?= b with Lt => -1 | Eq => 0 | Gt => 1 end.
+(* SmallInt.Cmp *)
+Definition small_cmp (a b : Z) : Z := if a >? b then 1 else if a <? b then -1 else 0.
+
+Inductive cmpop := CGt | CGe | CLt | CLe | CEq.
+(* GreaterThan*/GreaterThanEqual*/LessThan*/LessThanEqual*/Equal* by representation pair:
+   machine comparison between two SmallInts, big.Int.Cmp otherwise *)
+Definition icmp (o : cmpop) (x y : ival) : bool :=
+  match x, y with
+  | Small a, Small b =>
+      match o with CGt => a >? b | CGe => a >=? b | CLt => a <? b | CLe => a <=? b | CEq => a =? b end
+  | _, _ =>
+      let c := big_cmp (den x) (den y) in
+      match o with CGt => c =? 1 | CGe => c >=? 0 | CLt => c =? -1 | CLe => c <=? 0 | CEq => c =? 0 end
+  end.
+Definition cmp_spec (o : cmpop) (a b : Z) : bool :=
+  match o with CGt => a >? b | CGe => a >=? b | CLt => a <? b | CLe => a <=? b | CEq => a =? b end.
+(* CompareSmallInt / CompareBigInt : the <=> operator *)
+Definition icompare (x y : ival) : ival :=
+  match x, y with
+  | Small a, Small b => Small (small_cmp a b)
+  | _, _ => Small (big_cmp (den x) (den y))
+  end.
+
+(* ---- shifts (after the fix) ---- *)
+(* arithmetic right shift x >> n (n >= 0) = floor (x / 2^n), computed without iterating n
+   times when n exceeds the length of x (Z.shiftr would loop 2^62 times on `1 >> 2**62`);
+   Proofs/C06_Shift.v shows zshr x n = Z.shiftr x n *)
+Definition zshr (x n : Z) : Z :=
+  if Z.log2 (Z.abs x) <? n then (if x <? 0 then -1 else 0) else Z.shiftr x n.
+(* the mathematical shift: a * 2^n for n >= 0, floor (a / 2^(-n)) for n < 0 *)
+Definition shl_spec (a n : Z) : Z := if n <? 0 then zshr a (- n) else Z.shiftl a n.
+(* Go: x >> n and x << n on int64 with a signed count panic when n < 0 *)
+Definition go_shr_chk (x n : Z) : outcome Z :=
+  if n <? 0 then Panic P_NEG_SHIFT else Ok (zshr x n).
+Definition go_shl_chk (x n : Z) : outcome Z :=
+  if n <? 0 then Panic P_NEG_SHIFT else Ok (wrap64 (Z.shiftl x n)).
+
+(* smallIntSignFill / bigIntSignFill *)
+Definition sign_fill (i : Z) : ival := if i <? 0 then Small (-1) else Small 0.
+
+(* leftBitshiftSmallInt[T = SmallInt] *)
+Definition left_shift_small (i other : Z) : outcome ival :=
+  if (other <? 0) || (i =? 0) then Ok (Small 0) else
+  if other <=? 63 then
+    bind (go_shr_chk i (63 - other)) (fun comp =>
+      if ((i <? 0) && (comp =? -1)) || ((i >? 0) && (comp =? 0))
+      then bind (go_shl_chk i other) (fun r => Ok (Small r))
+      else Ok (Big (Z.shiftl i other)))
+  else Ok (Big (Z.shiftl i other)).     (* big.Int.Lsh; never fits when i <> 0 *)
+(* rightBitshiftSmallInt[T = SmallInt]: a negative amount is a wrapped -MinInt64 *)
+Definition right_shift_small (i other : Z) : outcome ival :=
+  if other <? 0 then Ok (sign_fill i) else bind (go_shr_chk i other) (fun r => Ok (Small r)).
+
+(* SmallInt.LeftBitshiftSmallInt ; -other is computed on int64 *)
+Definition small_lsh_small (i o : Z) : outcome ival :=
+  if o <? 0 then right_shift_small i (wrap64 (- o)) else left_shift_small i o.
+(* SmallInt.LeftBitshiftBigInt *)
+Definition small_lsh_big (i o : Z) : outcome ival :=
+  if fits64 o then small_lsh_small i o
+  else if o <? 0 then Ok (sign_fill i) else Ok (Small 0).
+(* SmallInt.RightBitshiftSmallInt *)
+Definition small_rsh_small (i o : Z) : outcome ival :=
+  if o <? 0 then left_shift_small i (wrap64 (- o))
+  else bind (go_shr_chk i o) (fun r => Ok (Small r)).
+(* SmallInt.RightBitshiftBigInt *)
+Definition small_rsh_big (i o : Z) : outcome ival :=
+  if fits64 o then small_rsh_small i o
+  else if o >? 0 then Ok (sign_fill i) else Ok (Small 0).
+
+(* rightBitshiftBigInt / leftBitshiftBigInt [T = SmallInt]; big.Int.Rsh is an arithmetic shift *)
+Definition right_shift_big (a other : Z) : ival :=
+  if other <? 0 then sign_fill a else norm (zshr a other).
+Definition left_shift_big (a other : Z) : ival :=
+  if other <? 0 then Small 0 else Big (Z.shiftl a other).
+(* BigInt.LeftBitshiftSmallInt / LeftBitshiftBigInt / RightBitshiftSmallInt / RightBitshiftBigInt *)
+Definition big_lsh_small (a o : Z) : ival :=
+  if o <? 0 then right_shift_big a (wrap64 (- o)) else left_shift_big a o.
+Definition big_lsh_big (a o : Z) : ival :=
+  if fits64 o then big_lsh_small a o else if o <? 0 then sign_fill a else Small 0.
+Definition big_rsh_small (a o : Z) : ival :=
+  if o <? 0 then left_shift_big a (wrap64 (- o)) else right_shift_big a o.
+Definition big_rsh_big (a o : Z) : ival :=
+  if fits64 o then big_rsh_small a o else if o >? 0 then sign_fill a else Small 0.
+
+Definition ishl (x y : ival) : outcome ival :=
+  match x, y with
+  | Small a, Small b => small_lsh_small a b
+  | Small a, Big b => small_lsh_big a b
+  | Big a, Small b => Ok (big_lsh_small a b)
+  | Big a, Big b => Ok (big_lsh_big a b)
+  end.
+Definition ishr (x y : ival) : outcome ival :=
+  match x, y with
+  | Small a, Small b => small_rsh_small a b
+  | Small a, Big b => small_rsh_big a b
+  | Big a, Small b => Ok (big_rsh_small a b)
+  | Big a, Big b => Ok (big_rsh_big a b)
+  end.
+
+(* ---- bitwise: int64 operators between SmallInts, big.Int And/Or/Xor/AndNot
+   (two's complement on unbounded integers) followed by normalisation otherwise ---- *)
+Inductive bitop := BAnd | BOr | BXor | BAndNot.
+Definition bit_z (o : bitop) (a b : Z) : Z :=
+  match o with BAnd => Z.land a b | BOr => Z.lor a b | BXor => Z.lxor a b | BAndNot => Z.ldiff a b end.
+Definition ibit (o : bitop) (x y : ival) : ival :=
+  match x, y with
+  | Small a, Small b => Small (bit_z o a b)
+  | _, _ => norm (bit_z o (den x) (den y))
   end.
